@@ -75,6 +75,24 @@ CHECKS = {
               "3 points; larger lists sampled."),
         technique="TLA+/TLC exhaustive scenario enumeration + replay into the real KZG API validated by a TLC trace spec",
     ),
+    "C15": dict(
+        category="model_checking",
+        text=("Batch.tla follows batch_verify step by step with symbolic error terms and a colluding pair of invalid "
+              "members; TLC checks BatchIffAll, NoCrash and RBindsAll for all batches of <= MaxN members of six kinds x "
+              "four length-mismatch cases (and that an unscaled fold, a summary left out of r, or indexing an empty "
+              "batch break them). Every enumerated batch is concretised from a pool of real proofs of two relations "
+              "(valid, corrupted proof, wrong public input, wrong key, short input, unparsable, truncated, trailing "
+              "bytes; repetitions, permutations, mixed relations) and run through zk_stdlib::batch_verify under a "
+              "recording transcript hash, Guard::batch_verify and Accumulator::{from_dual_msm, accumulate, collapse, "
+              "check} with per-key fixed-base maps; Batch_Trace demands the model's verdict, a value never a panic, r "
+              "squeezed after the summary of every member, and accumulator checks equal to the conjunction of the "
+              "individual verdicts observed in the same run."),
+        design_ref="DESIGN.md 4/C15",
+        note=("Invalid members are independent in reality (no colluding proofs can be built), so the binding of r to "
+              "every member is checked on the recorded batching transcript rather than by an attack; in-circuit "
+              "accumulator is covered under C20."),
+        technique="TLA+/TLC model checking of Batch + replay of enumerated batches into the real batch verifier/accumulator validated by a trace spec",
+    ),
 }
 
 NOT_YET = {
